@@ -184,6 +184,51 @@ func cmdCheck(args []string) int {
 			}
 		}
 	}
+	// lemmas used by the proofs (and every lemma declared before them in the same package, which their own
+	// proofs may use) are proved in the same run
+	need := map[int]bool{}
+	for _, k := range cr.order {
+		r := cr.results[k]
+		if r == nil {
+			continue
+		}
+		for _, ln := range r.Lemmas {
+			for i, ld := range P.Lemmas {
+				if ld.Pkg+"."+ld.Name == ln {
+					for j := 0; j <= i; j++ {
+						if P.Lemmas[j].Pkg == ld.Pkg {
+							need[j] = true
+						}
+					}
+				}
+			}
+		}
+	}
+	for i, ld := range P.Lemmas {
+		for _, p := range ld.Props {
+			if p == prop {
+				need[i] = true
+			}
+		}
+	}
+	var lidx []int
+	for i := range need {
+		lidx = append(lidx, i)
+	}
+	sort.Ints(lidx)
+	var lwg sync.WaitGroup
+	for _, i := range lidx {
+		lwg.Add(1)
+		go func(i int) {
+			defer lwg.Done()
+			r := P.verifyLemma(i, opts)
+			mu.Lock()
+			cr.results[r.Key] = r
+			cr.order = append(cr.order, r.Key)
+			mu.Unlock()
+		}(i)
+	}
+	lwg.Wait()
 	sort.Strings(cr.order)
 	return cr.report(evPath, t0, seed, *quiet, *verifDir)
 }
